@@ -128,6 +128,8 @@ fn main() {
             );
             if entry.alloc {
                 let (frame, _) = llfree.get(None, flags).unwrap();
+                #[cfg(feature = "verif")]
+                eprintln!("VERIF get {pfn} {} {}", flags.order, frame.0);
                 if allocated[pfn].present() {
                     trace!("Realloc pfn={pfn} order={}", flags.order);
                     reallocs += 1;
@@ -168,11 +170,17 @@ fn main() {
                         .with_order(entry.order as _);
                 }
 
+                #[cfg(feature = "verif")]
+                eprintln!("VERIF put {pfn} {} {}", flags.order, frame.0);
                 if let Err(e) = llfree.put(frame, flags) {
                     error!("Free failed pfn={a_pfn} order={} error={e:?}", flags.order);
+                    #[cfg(feature = "verif")]
+                    eprintln!("VERIF putfailed {pfn} {}", flags.order);
                 }
             } else {
                 trace!("Free unallocated pfn={pfn} order={}", flags.order);
+                #[cfg(feature = "verif")]
+                eprintln!("VERIF unknown {pfn} {}", flags.order);
                 free_unkown += 1;
             }
         }
